@@ -12,38 +12,11 @@ extern long long g_step_rel, g_step_abs; extern int g_sim_continuing, g_sim_runn
 #define F_SCALE_FORCE 14
 #define NFEAT 17
 
-/* ghost call log of the variables' force entry points */
-extern int g_ncalls_fb, g_ncalls_fba;        /* number of calls so far */
-extern int g_seen_fb[3], g_seen_fba[3];      /* per variable: calls received */
-extern double g_val_fb[3], g_val_fba[3];     /* per variable: last operand */
-extern double g_sf;                          /* value the scaling grid returns */
-extern int g_sf_ok;                          /* whether the scaling grid says the bin is in range */
-
-/* uninterpreted, logged product (see stubs/colvar_stub.h) */
-#define NMUL 8
-extern int g_nmul; extern double g_mul_a[NMUL], g_mul_b[NMUL], g_mul_r[NMUL];
-double k_mul(double a, double b)
-__CPROVER_requires(0 <= g_nmul && g_nmul < NMUL)
-__CPROVER_assigns(g_nmul, g_mul_a[g_nmul], g_mul_b[g_nmul], g_mul_r[g_nmul])
-__CPROVER_ensures(g_nmul == __CPROVER_old(g_nmul) + 1 && g_mul_a[g_nmul - 1] == a && g_mul_b[g_nmul - 1] == b && g_mul_r[g_nmul - 1] == __CPROVER_return_value)
-;
-/* r is the product a*b in the log at position m */
-#define IS_MUL(m, r, a, b) (g_mul_a[m] == (a) && g_mul_b[m] == (b) && g_mul_r[m] == (r))
-
-void k_add_bias_force(int cv_tag, double f)
-__CPROVER_requires(0 <= cv_tag && cv_tag < 3)
-__CPROVER_assigns(g_ncalls_fb, g_seen_fb[cv_tag], g_val_fb[cv_tag])
-__CPROVER_ensures(g_ncalls_fb == __CPROVER_old(g_ncalls_fb) + 1 && g_seen_fb[cv_tag] == __CPROVER_old(g_seen_fb[cv_tag]) + 1 && g_val_fb[cv_tag] == f)
-;
-void k_add_bias_force_actual_value(int cv_tag, double f)
-__CPROVER_requires(0 <= cv_tag && cv_tag < 3)
-__CPROVER_assigns(g_ncalls_fba, g_seen_fba[cv_tag], g_val_fba[cv_tag])
-__CPROVER_ensures(g_ncalls_fba == __CPROVER_old(g_ncalls_fba) + 1 && g_seen_fba[cv_tag] == __CPROVER_old(g_seen_fba[cv_tag]) + 1 && g_val_fba[cv_tag] == f)
-;
+#include "../common/colvar_contract.h"
+extern double g_sf; extern int g_sf_ok;
 int k_sf_current_bin_scalar(int i) __CPROVER_assigns() __CPROVER_ensures(1);
 int k_sf_index_ok(int *bin, size_t n) __CPROVER_assigns() __CPROVER_ensures(__CPROVER_return_value == g_sf_ok);
 double k_sf_value(int *bin, size_t n) __CPROVER_assigns() __CPROVER_ensures(__CPROVER_return_value == g_sf);
-double k_cv_value(int cv_tag) __CPROVER_assigns() __CPROVER_ensures(1);
 
 /* can_accumulate_data: data may be accumulated iff this is not the (repeated) first step of a run segment
    -- relative step > 0 -- and the engine is not re-evaluating a continuing step, or step-zero data is requested */
